@@ -329,6 +329,49 @@ def _with_from_acquire(fn):
     return n_done
 
 
+def _split_tuple_assign(fn):
+    """`a, b = x, y` with plain right-hand sides (names, constants, attribute chains) none of which is one of the targets or a
+    prefix of one is `a = x; b = y`: the values are read first - nothing in between can change them - and the stores happen left
+    to right. Returns the number of rewrites."""
+    n_done = 0
+
+    def pure(e):
+        if isinstance(e, ast.Constant):
+            return True
+        while isinstance(e, ast.Attribute):
+            e = e.value
+        return isinstance(e, ast.Name)
+    for node in ast.walk(fn):
+        for fld in ("body", "orelse", "finalbody"):
+            body = getattr(node, fld, None)
+            if not isinstance(body, list):
+                continue
+            i = 0
+            while i < len(body):
+                st = body[i]
+                if isinstance(st, ast.Assign) and len(st.targets) == 1 and isinstance(st.targets[0], ast.Tuple) and \
+                        isinstance(st.value, ast.Tuple) and len(st.value.elts) == len(st.targets[0].elts) and \
+                        all(pure(v) for v in st.value.elts) and all(pure(t) and not isinstance(t, ast.Constant) for t in st.targets[0].elts):
+                    tsrc = [ast.unparse(t) for t in st.targets[0].elts]
+                    vsrc = [ast.unparse(v) for v in st.value.elts if not isinstance(v, ast.Constant)]
+                    clash = any(v == t or v.startswith(t + ".") or t.startswith(v + ".") for v in vsrc for t in tsrc) or \
+                        any(a != b and (a.startswith(b + ".") or b.startswith(a + ".")) for a in tsrc for b in tsrc) or len(set(tsrc)) != len(tsrc)
+                    # (an attribute store on `self` may run a property setter / __setattr__ that reads another target: the
+                    # classes of this package that use such stores define neither - left as is when the base is not a plain name)
+                    if not clash:
+                        new = []
+                        for t, v in zip(st.targets[0].elts, st.value.elts):
+                            a = ast.Assign(targets=[t], value=v)
+                            ast.copy_location(a, st)
+                            new.append(a)
+                        body[i:i + 1] = new
+                        n_done += 1
+                        i += len(new)
+                        continue
+                i += 1
+    return n_done
+
+
 def _with_suppress(fn):
     """`with contextlib.suppress(E1, E2): BODY` is `try: BODY except (E1, E2): pass` (the documented equivalence; only for the
     single-item form without `as`). Returns the number of rewrites."""
@@ -451,6 +494,7 @@ class Repo:
             n += TI.normalise_function(f.node, kl.get(q, set()))
             n += _with_from_acquire(f.node)
             n += _with_suppress(f.node)
+            n += _split_tuple_assign(f.node)
             n += _splice_starred_displays(f.node)
             if owner is not None:
                 n += self._with_self_to_finally(f.node, owner.cls)
